@@ -18,7 +18,9 @@ import traceback
 
 from . import bootstrap
 
-NCPU = 16
+NCPU = int(os.environ.get("PGV_NCPU", "16"))
+# PGV_OUT redirects evidence/ and replays/ (used only by the mutation runs of pgv.selftest.mutate)
+OUT = os.environ.get("PGV_OUT") or bootstrap.VERIF
 
 
 def load_known(prop):
@@ -271,7 +273,7 @@ def main(argv=None):
             if v["key"] in seen:
                 continue
             seen.add(v["key"])
-            d = os.path.join(bootstrap.VERIF, "replays", prop)
+            d = os.path.join(OUT, "replays", prop)
             os.makedirs(d, exist_ok=True)
             path = os.path.join(d, "%s.json" % harness.digest({"k": v["key"], "c": v["case"]}))
             with open(path, "w") as f:
@@ -290,8 +292,8 @@ def main(argv=None):
             "harness_errors": errors[:5],
             "repo": bootstrap.repo_state(),
         }
-        os.makedirs(os.path.join(bootstrap.VERIF, "evidence"), exist_ok=True)
-        evpath = os.path.join(bootstrap.VERIF, "evidence", "%s.json" % prop)
+        os.makedirs(os.path.join(OUT, "evidence"), exist_ok=True)
+        evpath = os.path.join(OUT, "evidence", "%s.json" % prop)
         with open(evpath + ".tmp", "w") as f:
             json.dump(ev, f, indent=1, default=str)
         os.replace(evpath + ".tmp", evpath)
